@@ -2,9 +2,9 @@
    run (VL [VN fn; args...]) :
      fn 1: frame   [VN base(0=1.0,1=1.1); VB msg]                       -> VB octets
      fn 2: worker  [VN base; VL msgs; VL readys(VN 0/1); VL answers]    -> VL [VB wire; status]
-             answer: VL [VN 0; VN n] = returns n (0 = closed) | VL [VN 1] = negative | VL [VN 2] = raises
+             answer: VL [VN 0; VN n] = returns n (0 = closed) | VL [VN 1] = negative | VL [VN 2] = raises | VL [VN 3] = returns None
              status: VL [VN 0] drained | VL [VN 1; VL q] waiting | VL [VN 2; VB unsent; VL q] in flight
-                     | VL [VN 3; VN kind(0 SessionCloseError, 1 transport exception); VB unsent; VL q] failed
+                     | VL [VN 3; VN kind(0 SessionCloseError, 1 transport exception, 2 TypeError of `None <= 0`); VB unsent; VL q] failed
      fn 3: decode11 [VB wire] -> VL [] | VL [VL msgs]          (strict RFC 6242 receiver, Spec/WireSpec.v)
      fn 4: decode10 [VB wire] -> VL [] | VL [VL msgs]          (strict RFC 4742 receiver)
      fn 5: write_loop [VB data; VL answers] -> VL [VB taken; result; VN unused answers]
@@ -22,11 +22,11 @@ Definition unVBs (v : val) : list bytes := match v with VL l => map unVB l | _ =
 Definition un_base (n : N) : base := if n =? 0 then B10 else B11.
 Definition un_bool (v : val) : bool := match v with VN 0 => false | _ => true end.
 Definition un_answer (v : val) : answer :=
-  match v with VL [VN 0; VN n] => Accept n | VL [VN 1] => Neg | _ => Raise end.
+  match v with VL [VN 0; VN n] => Accept n | VL [VN 1] => Neg | VL [VN 3] => NoCount | _ => Raise end.
 Definition un_list {A} (f : val -> A) (v : val) : list A := match v with VL l => map f l | _ => [] end.
 
 Definition enc_err (e : werr) : list val :=
-  match e with SessionClose u => [VN 0; VB u] | TransportExc u => [VN 1; VB u] end.
+  match e with SessionClose u => [VN 0; VB u] | TransportExc u => [VN 1; VB u] | CompareExc u => [VN 2; VB u] end.
 Definition enc_stat (s : wstat) : val :=
   match s with
   | Drained => VL [VN 0]
@@ -54,6 +54,7 @@ Definition un_label (v : val) : option label :=
   | VL [VN 10] => Some LSelect
   | VL [VN 11; VN 0; VB u] => Some (LDispErr (SessionClose u))
   | VL [VN 11; VN 1; VB u] => Some (LDispErr (TransportExc u))
+  | VL [VN 11; VN 2; VB u] => Some (LDispErr (CompareExc u))
   | VL [VN 12] => Some LClose
   | _ => None
   end.
